@@ -28,7 +28,8 @@ import (
 // autoreceive stream (C09): the receive path of every embedded method on a real node.
 //
 // One history = one node under one spork regime (0..3 sporks activated in the order accelerator, bridge&liquidity,
-// htlc). For every contract x method the history generates call data from four generators (canonical valid,
+// htlc) - or, in the spork-switch scenarios (runSporkSwitch), a node on which the three sporks are enforced during the
+// history in one of the six orders with calls in flight across every enforcement height. For every contract x method the history generates call data from four generators (canonical valid,
 // boundary integers, hostile ABI, valid-but-semantically-wrong), delivers each call through the template path
 // (Supervisor.GenerateFromTemplate, which re-packs the data) or as an externally built and signed block through
 // the gossip path (Supervisor.ApplyBlock), and for every ACCEPTED send drives the producer path itself:
@@ -78,6 +79,7 @@ type arRun struct {
 	histTag string
 	stateNote func() string
 	fast    bool  // compressed calendar
+	cons    *consMonitor // C01 conservation, read from the real stores after every momentum and every produced receive (mon_conservation.go)
 	jumpSec int64 // added once to the timestamp of the next momentum (time-dependent methods: lock periods, epochs)
 }
 
@@ -285,6 +287,7 @@ func (r *arRun) arReceiveAll() bool {
 			if err != nil {
 				r.c.Hit("recv-error")
 				r.wedged[ca] = true
+				r.consPool("the head of the inbox of " + arContractName(ca) + " could not be answered (" + firstLine300(err.Error()) + "): " + desc)
 				r.fail("C09: inbox of %s is wedged: GenerateAutoReceive returned an error for the head of the queue %s: %v", arContractName(ca), desc, err)
 				continue
 			}
@@ -308,6 +311,13 @@ func (r *arRun) arReceiveAll() bool {
 				continue
 			}
 			after := arDumpStorage(n, ca)
+			// C01 at the pool state the receive block leaves: applied, refunded or failed, the call left the sum unchanged. Judged
+			// after every call made BY a contract, every 8th failed call of a user and every 16th other receive (the walk over the
+			// pool is the expensive part); every receive is judged again with the momentum that confirms it and at the end
+			if blk := res.Transaction.Block; types.IsEmbeddedAddress(sendBlock.Address) || ((len(blk.Data) != 8 || common.BytesToUint64(blk.Data) != 1) && r.nRecv%8 == 0) || r.nRecv%16 == 0 {
+				r.consPool(fmt.Sprintf("after receive block %s/%d (status data %s, %d descendants) answering %s", arContractName(ca), res.Transaction.Block.Height,
+					strings.TrimLeft(hx(res.Transaction.Block.Data), "0"), len(res.Transaction.Block.DescendantBlocks), desc))
+			}
 			r.checkReceive(sendBlock, res, before, after)
 			if r.failed {
 				return false // the history ends at the first violation
@@ -498,9 +508,29 @@ func (r *arRun) checkAllAnswered(when string) {
 	}
 }
 
+// consPool: the conservation monitor at the pool state; a failure ends the history like every other violation
+func (r *arRun) consPool(why string) {
+	if r.cons != nil && !r.cons.checkPool(why) {
+		r.failed = true
+	}
+}
+
+// consFinal: the equality once more with every account re-read, also when the history ended early on another violation (e.g.
+// the wedged inbox of known finding F18b: the unanswerable send stays in flight, the sum is unchanged)
+func (r *arRun) consFinal() {
+	if r.cons != nil && !r.cons.failed {
+		r.cons.checkConfirmedFull("at the end of the history")
+		r.cons.checkPool("at the end of the history")
+	}
+}
+
 // step: one producer event = momentum, auto-receive loop, contract updates; then the "answered" monitor.
 func (r *arRun) step() bool {
 	if _, ok := r.arMomentum(); !ok {
+		return false
+	}
+	if r.cons != nil && !r.cons.checkConfirmed("momentum produced by the harness's producer path") {
+		r.failed = true
 		return false
 	}
 	if !r.arReceiveAll() {
@@ -664,6 +694,18 @@ func init() {
 			autoreceiveHistory(c, 2, sc)
 			return
 		}
+		if c.Args["mode"] == "conservation" {
+			// C01's use of the stream: the conservation monitor (mon_conservation.go) runs in every history of the stream; here
+			// only the histories that matter most for it: every scenario in which a call made BY a contract carries an amount
+			// and fails, and c.N generated histories under the later spork regimes (3, 2, 1, 0, 3, ...)
+			for i, sc := range arScenarios {
+				autoreceiveHistory(c, 2+i%2, sc)
+			}
+			for i := 0; i < c.N; i++ {
+				autoreceiveHistory(c, 3-i%4, "")
+			}
+			return
+		}
 		for i := 0; i < c.N; i++ {
 			if v, ok := c.Args["only"]; ok && v != fmt.Sprint(i) {
 				continue
@@ -676,6 +718,13 @@ func init() {
 				break
 			}
 			autoreceiveHistory(c, 2+i%2, sc)
+		}
+		// the spork regime changes during the history, calls in flight across every enforcement height (runSporkSwitch): two of
+		// the six orders per run in the quick tier (chosen by the seed), all six in the thorough tier
+		for i, o := range arSporkSwitchOrders {
+			if c.Tier == "thorough" || c.Args["switch"] == "all" || i%3 == int(c.Seed%3) {
+				autoreceiveHistory(c, 4*i, "spork-switch:"+o)
+			}
 		}
 		// the boundary-integer sweep (s_autoreceive_sweep.go): every method x every integer argument and the amount x the
 		// boundary family, under all sporks; in the thorough tier also under the other spork regimes
@@ -761,6 +810,12 @@ func autoreceiveHistory(c *Ctx, id int, scenario string) {
 	defer n.Stop()
 	r := &arRun{c: c, n: n, id: id, regime: regime, fast: fast, histTag: scenario, sends: map[types.Hash]*arSend{}, wedged: map[types.Address]bool{}}
 	r.w = newArWorld(r)
+	r.cons = newConsMonitor(c, n, fmt.Sprintf("autoreceive run=%d regime=%d scenario=%q", id, regime, scenario))
+	n.OnMomentum = func(dm *nom.DetailedMomentum) { // momentums of the spork activation phase (the mock node's own worker answers)
+		if !r.cons.checkConfirmed("momentum produced by the node's own worker") {
+			r.failed = true
+		}
+	}
 	defer func() {
 		for _, id := range r.w.declared {
 			delete(types.ImplementedSporksMap, id)
@@ -788,6 +843,7 @@ func autoreceiveHistory(c *Ctx, id int, scenario string) {
 		r.runPlan()
 	}
 	if r.failed {
+		r.consFinal()
 		return
 	}
 	for i := 0; i < 6 && !r.failed; i++ {
@@ -798,6 +854,7 @@ func autoreceiveHistory(c *Ctx, id int, scenario string) {
 	if !r.failed {
 		r.checkAllAnswered("at the end of the history")
 	}
+	r.consFinal()
 	c.Hit("history-complete")
 }
 
